@@ -148,9 +148,48 @@ def family_span(nts=("E", "A")):
             ((e, ((a, t),)), (a, ((), ("a", a))))]
 
 
+SYN_MAPS = {
+    # synonym VALUE equal to another synonym KEY (rename chain): DQ -> STRING, STRING group -> RAW
+    "syn-chain": ({"DQ": "STRING", "STRING": "RAW"},
+                  [("STRING", '"x"'), ("RAW", "'y'"), ("NUM", "7"), ("W", "w")]),
+    # identity entry of a table-driven mapping
+    "syn-identity": ({"NUM": "NUM", "W": "WORD"},
+                     [("DQ", '"x"'), ("STRING", "'y'"), ("NUM", "7"), ("WORD", "w")]),
+    # two groups renamed to one name, one of them through a chain
+    "syn-merge": ({"DQ": "STRING", "STRING": "STRING", "W": "NUM", "NUM": "N"},
+                  [("STRING", '"x"'), ("STRING", "'y'"), ("NUM", "w"), ("N", "7")]),
+    # control: fresh names only
+    "syn-fresh": ({"DQ": "S1", "W": "WORD"},
+                  [("S1", '"x"'), ("STRING", "'y'"), ("NUM", "7"), ("WORD", "w")]),
+}
+
+
+def syn_cfg(key):
+    """Tokenizer configurations whose ``synonyms`` map renames re groups in chains / to themselves; the
+    token menu lists the final token names (what the tokenizer emits) with a sample text each."""
+    syn, tokens = SYN_MAPS[key]
+    return TokCfg(key, r"""(?P<SPACE>\s+)|(?P<DQ>"[a-z]*")|(?P<STRING>'[a-z]*')|(?P<NUM>[0-9]+)|(?P<W>[a-z]+)""",
+                  tokens, synonyms=dict(syn))
+
+
+def family_syn(terms, nts=("E", "A")):
+    """A handful of tiny LL(1) grammars over the (final) token names ``terms`` of a syn_cfg."""
+    e, a = nts
+    t = list(terms) + list(terms)
+    t1, t2, t3, t4 = t[0], t[1], t[2], t[3]
+    return [((e, ((t1,), (t2, t3))), (a, ((t4,),))),
+            ((e, ((t1, a), (t2,))), (a, ((), (t3, a)))),
+            ((e, ((a, t4),)), (a, ((t1,), (t2, t2), (t3,)))),
+            ((e, ((a, a),)), (a, ((t1,), (t2,), (t3, t4)))),
+            ((e, ((t4, a, t4), (t3,))), (a, ((), (t1,), (t2, a)))),
+            ((e, ((t2,),)), (a, ((t1,),)))]
+
+
 def cfg_from_key(key):
     if key == "kw":
         return kw_cfg()
+    if isinstance(key, str) and key.startswith("syn-"):
+        return syn_cfg(key)
     if key == "span":
         return span_cfg()
     if key == "blank":
@@ -771,7 +810,8 @@ def family_seq(terms, nts=("E", "W", "A")):
     E : every ordered choice of 2-3 distinct alternatives from a menu that mixes the sequence with leading
         and trailing terminals (alternatives with different first symbols are not factorized, so the parser
         rolls back from one into the other and enters the sequence again at a later token).
-    terms = (w, v, x, y).
+    terms = (w, v, x, y).  The last part of the family uses as sequence item a symbol with common-prefix
+    alternatives (a factorized symbol).
     """
     e, wseq, a = nts
     w, v, x, y = terms[:4]
@@ -783,6 +823,14 @@ def family_seq(terms, nts=("E", "W", "A")):
         for k in (2, 3):
             for alts in itertools.permutations(menu, k):
                 yield ((e, alts),) + sd
+    # items that are factorized symbols: common prefix of length 2 (suffix symbol kept in both modes) and of
+    # length 1 (kept with smart_factorization=False only); no helper symbol may survive inside the items
+    item_defs = [((wseq, (SEQ, a)), (a, ((w, v, w), (w, v, x)))),
+                 ((wseq, (SEQ, a)), (a, ((w, v), (w, x)))),
+                 ((wseq, (SEQ, a, y)), (a, ((w, v, w), (w, v), (w, x))))]
+    for sd in item_defs:
+        for alts in itertools.permutations(menu[:8], 2):
+            yield ((e, alts),) + sd
 
 
 def family_diverge(terms, nts=("E", "A")):
